@@ -114,6 +114,44 @@ def main(run):
             o = faults.run_local('upload_stream', script, bigp, root / 'rf', realfile=True, limit=10 ** 9, chunk=4096) if (root / 'rf').mkdir(exist_ok=True) is None else None
             events.append(dict(o, adapter='local', op='upload_stream', script=[list(x) for x in script], nfaults=len(script), persistent=False, budget=3, predicted='~'))
             run.case(('local', 'upload_stream-real-file', tuple(script)))
+        # several transfers on ONE B2 adapter object with every token issued so far expiring in between (expired authorisation is a fault
+        # the property wants masked): what the adapter remembers from an earlier transfer must not make the next one fail
+        import asyncio as _asyncio
+        import io as _io
+        from .. import fakeb2, vclock
+
+        async def b2_sequence():
+            fake = fakeb2.FakeB2()
+            fake.op_limit = 200
+            be = fakeb2.client(fake)
+            outs = []
+            try:
+                for j in range(3):
+                    pl = bytes([j]) * 10 + payload
+                    fake.op_calls = 0
+                    n0 = fake.calls
+                    o = {'ok': True, 'exact': True, 'calls': 0, 'runaway': False, 'nopartial': True, 'etype': '~', 'slept': 0}
+                    try:
+                        if j % 2:
+                            await be.upload('seq/obj-%d' % j, pl)
+                        else:
+                            await be.upload_stream('seq/obj-%d' % j, faults.wrap_reader(_io.BytesIO(pl)), len(pl), faults.CHUNK)
+                        o['exact'] = fake.visible().get('seq/obj-%d' % j) == pl
+                    except (fakeb2.Runaway, RecursionError):
+                        o.update(ok=False, runaway=True, etype='Runaway')
+                    except Exception as ex:  # noqa: BLE001
+                        o.update(ok=False, etype=type(ex).__name__)
+                    o['calls'] = fake.calls - n0
+                    outs.append(o)
+                    fake.expire_tokens()
+            finally:
+                await be.close()
+            return outs
+        with vclock.virtual():
+            for j, o in enumerate(_asyncio.run(b2_sequence())):
+                events.append(dict(o, adapter='b2', op='upload' if j % 2 else 'upload_stream', script=[[1, 0, 'auth']] if j else [], nfaults=1 if j else 0,
+                                   persistent=False, budget=3, predicted='~'))
+                run.case(('b2', 'sequence-with-expiring-tokens', j))
         # listings whose pages are large (hundreds of kilobytes) and break in mid-body: after the retry every name appears exactly once
         for adapter in ('s3', 'b2'):
             for script in ([(1, 1, 'io')], [(1, 2, 'io')], [(1, 3, 'io')], [(1, 2, 'io'), (2, 3, 'io')], [(2, 3, 'io')]):
